@@ -2,6 +2,9 @@ package checks
 
 import (
 	"fmt"
+	"os"
+	"path/filepath"
+	"regexp"
 	"sort"
 	"strings"
 
@@ -310,6 +313,7 @@ func init() {
 			}
 		}
 		res = append(res, compositionAcrossFiles(c, &fails)...)
+		recursionThroughFiles(c, &fails)
 		res = append(res, symlinkLayouts(c, &fails)...)
 		res = append(res, unusualFileNames(c, &fails)...)
 		cliEqualsLibraryFiles(c, buildCLI(c), &fails)
@@ -331,4 +335,77 @@ func filesAsStrings(m map[string][]byte) map[string]string {
 		out[k] = string(m[k])
 	}
 	return out
+}
+
+// recursionThroughFiles: the main document and a sibling refer to each other; the command-line argument and the two
+// references are spelled in every combination of plain / "./" / extension-less (with --resolve-extension), with a
+// required member (the types get methods) and without.  However the one file is named, it is one schema: the run
+// succeeds, and every type and every method is declared exactly once.
+var k40Reported bool
+
+func recursionThroughFiles(c *engine.Ctx, fails *int) {
+	bin := buildCLI(c)
+	if bin == "" {
+		return
+	}
+	tmp, _ := os.MkdirTemp("", "gjsc10r")
+	defer os.RemoveAll(tmp)
+	declRe := regexp.MustCompile(`(?m)^(type \w+ |func \(j \*\w+\) \w+\()`)
+	n := 0
+	for _, withReq := range []bool{true, false} {
+		for ai, arg := range []string{"tree.json", "./tree.json", "tree"} {
+			for fi, fwd := range []string{"branch.json", "./branch.json", "branch"} {
+				for bi, back := range []string{"tree.json", "./tree.json", "tree"} {
+					node := func(id, ref string) M {
+						nd := M{"$id": id, "type": "object", "properties": M{"name": M{"type": "string"}, "child": M{"$ref": ref}, "kids": M{"type": "array", "items": M{"$ref": ref}}}}
+						if withReq {
+							nd["required"] = []any{"name"}
+						}
+						return nd
+					}
+					n++
+					wd := filepath.Join(tmp, fmt.Sprint(n))
+					_ = os.MkdirAll(wd, 0o755)
+					files := map[string]string{"tree.json": string(core.MustJSON(node("urn:tree", fwd))), "branch.json": string(core.MustJSON(node("urn:branch", back)))}
+					for name, data := range files {
+						_ = os.WriteFile(filepath.Join(wd, name), []byte(data), 0o644)
+					}
+					args := []string{"-p", "forest", "--resolve-extension", ".json", "--schema-root-type", "urn:tree=Tree", "--schema-root-type", "urn:branch=Branch", arg}
+					res := runCLI(bin, wd, "", args...)
+					c.Programs++
+					dup := ""
+					seen := map[string]bool{}
+					for _, m := range declRe.FindAllString(res.Stdout, -1) {
+						if seen[m] {
+							dup = m
+						}
+						seen[m] = true
+					}
+					ok := res.Exit == 0 && dup == "" && seen["type Tree "] && seen["type Branch "]
+					c.Eval(fmt.Sprintf("recursion-through-files|req=%v|arg=%d|fwd=%d|back=%d|ok=%v", withReq, ai, fi, bi, ok))
+					// listed finding K40: the loader's cache is keyed by the reference text before --resolve-extension is applied,
+					// so a file named WITH its extension in one place and WITHOUT in the other is loaded twice; equal type
+					// declarations are merged, the methods of a type that has them are emitted twice
+					extMismatch := strings.HasSuffix(arg, ".json") != strings.HasSuffix(back, ".json")
+					if !ok && extMismatch && withReq && res.Exit == 0 && strings.HasPrefix(dup, "func (j *") {
+						c.Count("c10", "recursion through files: K40 region (extension given in one place only)")
+						for _, k := range c.KnownFor() {
+							if strings.HasPrefix(k.ID, "K40") && !k40Reported {
+								k40Reported = true
+								c.ReportKnown(k)
+							}
+						}
+						continue
+					}
+					if !ok {
+						*fails++
+						if *fails <= 3 {
+							c.Fail("oracle", fmt.Sprintf("two files that refer to each other (argument %q, references %q / %q): exit %d, declared twice: %q, %s", arg, fwd, back, res.Exit, dup, clip(res.Stderr, 200)),
+								M{"kind": "cli-multi", "files": files, "flags": args, "stdout": clip(res.Stdout, 2500)}, false)
+						}
+					}
+				}
+			}
+		}
+	}
 }
